@@ -88,13 +88,16 @@ func c13Policies(ctx *core.Ctx) [][]spec.Op {
 	}
 	// every default CSS handler, data URIs, patterns, rewriter: reaches package-level state in css/handlers.go and helpers.go
 	pols = append(pols, everythingPolicy())
+	// the zero value of Policy with options only: no builder call has initialised it when the first
+	// (concurrent) calls arrive
+	pols = append(pols, []spec.Op{{K: spec.KZero}, {K: spec.KComments}, {K: spec.KSwitch, Names: []string{spec.SwAddSpaces}, B: true}, {K: spec.KSwitch, Names: []string{spec.SwCrossOrigin}, B: true}, {K: spec.KDataAttrs}})
 	return pols
 }
 
 var raceBlockRe = regexp.MustCompile(`(?s)WARNING: DATA RACE.*?==================`)
 
 func runC13(ctx *core.Ctx) {
-	ctx.Rule = "7 shared policies (Strict, UGC, html-email, 3 generated with overlapping element patterns, style rules in all scopes, URL callbacks, rewriter, and one with every default CSS handler) x a small input set (every fifth input URL-heavy, with schemes only a scheme pattern accepts) x 64 goroutines x rounds on a never-used instance, cold starts on fresh instances, and fresh PROCESSES whose very first sanitiser calls are made by 64 goroutines at once (package-level lazy state); all entry points, binary built with -race (GORACE halt_on_error=0, reports read back from log_path); oracle: zero race reports touching bluemonday or its dependencies, every concurrent result equals the sequential baseline, repeated sequential calls agree (map-order independence), the baseline recomputed after the stress is unchanged (the reflection fingerprint of the policy before/after is recorded as an observation); non-trivial = a (policy, input) pair executed concurrently with a non-empty result, distinct by pair"
+	ctx.Rule = "8 shared policies (Strict, UGC, html-email, a zero-value Policy with options only, 3 generated with overlapping element patterns, style rules in all scopes, URL callbacks, rewriter, and one with every default CSS handler) x a small input set (every fifth input URL-heavy, with schemes only a scheme pattern accepts) x 64 goroutines x rounds on a never-used instance, cold starts on fresh instances, and fresh PROCESSES whose very first sanitiser calls are made by 64 goroutines at once (package-level lazy state); all entry points, binary built with -race (GORACE halt_on_error=0, reports read back from log_path); oracle: zero race reports touching bluemonday or its dependencies, every concurrent result equals the sequential baseline, repeated sequential calls agree (map-order independence), the baseline recomputed after the stress is unchanged (the reflection fingerprint of the policy before/after is recorded as an observation); non-trivial = a (policy, input) pair executed concurrently with a non-empty result, distinct by pair"
 	ctx.Assume("the race detector generalises each executed interleaving by happens-before analysis but only over executed code; its shadow history is bounded, repeats compensate")
 	if !raceEnabled() && !ctx.Replaying {
 		ctx.Inconclusive("the monitor binary was not built with -race")
